@@ -344,6 +344,7 @@ pub struct Stats {
     pub seek_compactions_by_model: u64,
     pub flush_levels_checked: u64,
     pub persist_relation_checked: u64,
+    pub snapshot_lists_checked: u64,
     pub persist_directory_exact: u64,
     pub flushes_below_level0: u64,
 }
@@ -910,6 +911,12 @@ pub fn run_history(h: &History, checks: &Checks, fs: &SimFs) -> RunOut {
         if let Some(b) = &st.bad_state {
             obs.push(Obs { sig: "c09:bad-database-state".into(), what: format!("the database recorded a background error without any injected fault: {b}"), at });
         }
+        // the invariant of the snapshot list (Rain/Props/Snap.lean SInv) on the dumped list: ordered by
+        // sequence number (new_snapshot asserts it), nothing above the last published sequence number
+        if st.snapshots.windows(2).any(|w| w[0] > w[1]) || st.snapshots.iter().any(|q| *q > st.last_sequence) {
+            obs.push(Obs { sig: "c03:snapshot-list-invariant-violated".into(), what: format!("the snapshot list {:?} (oldest first) is not ordered by sequence number or holds a snapshot above the last published sequence number {}: a compaction takes the HEAD of the list as the smallest snapshot", st.snapshots, st.last_sequence), at });
+        }
+        stats.snapshot_lists_checked += 1;
         let events = raindb::verif::events_take(DB_PATH);
         if let Some(dr) = drv.as_mut() {
             validate_events(dr, &events, obs, stats, at, chain);
